@@ -244,7 +244,9 @@ class OutputReference:
                     break
                 overlap += 1
 
-            if overlap > largest_overlap:
+            # VV: The producer is the scope with the longest location that is a prefix of this location.
+            # A scope which just shares some leading steps with this location is not a producer.
+            if overlap == len(other_loc) and overlap > largest_overlap:
                 best = other_loc
                 largest_overlap = overlap
 
@@ -1612,6 +1614,11 @@ class ScopeStack:
                             try:
                                 producer = self.scopes[tuple(location)]
                                 if isinstance(producer.template, Component) is False:
+                                    # VV: The reference points to (or inside) a Workflow instance without reaching
+                                    # a Component. There is no producer Component (conversion to DataReferences
+                                    # reports the error). Not trimming the location here would loop forever.
+                                    producer = None
+                                    location = location[:-1]
                                     continue
                                 break
                             except KeyError:
